@@ -48,7 +48,7 @@ YOUR TASK: write TWO different, independent changes to tracklib's source (each o
  {FOCUS}
  The two changes must be different in mechanism and, preferably, in the function they touch. Do not edit anything under `test/` or `data/`.
 
-For EACH change write a demonstration program `demo.py` (plain script, no pytest needed, standard library + tracklib + numpy only, deterministic, finishes in < 60 s, prints what it observed) that exits 0 on the unchanged tree and exits non-zero (assertion failure) with the change applied, by exhibiting the property violation through tracklib's public API. Verify both directions yourself (`git stash`/`git checkout -- tracklib` to go back to the unchanged tree).
+For EACH change write a demonstration program `demo.py` (plain script, no pytest needed, standard library + tracklib + numpy only, deterministic, finishes in < 60 s, prints what it observed) that exits 0 on the unchanged tree and exits non-zero (assertion failure) with the change applied, by exhibiting the property violation through tracklib's public API. Verify both directions yourself (`git diff > /some/file.diff; git checkout -- tracklib` to go back to the unchanged tree and `git apply /some/file.diff` to re-apply). NEVER use `git stash`: the stash is shared by all worktrees of the repository and other agents are working in sibling worktrees.
 
 DELIVERABLES, for the first change in `{OUT}/{prop}-{l1}/` and for the second in `{OUT}/{prop}-{l2}/`:
   * `patch.diff`  -- output of `git diff` (relative to the worktree root, touching only files under `tracklib/`), made against the unchanged HEAD, applying cleanly with `git apply` on the unchanged HEAD;
